@@ -113,7 +113,7 @@ def _same_nonblank(e, got, want):
     # blank for every row of the path, then got must be the field, or the field without a sign column that is always blank
     gc = list(g.chars); wc = list(w.chars)
     def is_blank_valid(c):
-        return c == 32 if isinstance(c, int) else e.valid(c == 32)
+        return c == 32 if isinstance(c, int) else e.valid(c == 32, record=False)
     while gc and is_blank_valid(gc[0]): gc.pop(0)
     while gc and is_blank_valid(gc[-1]): gc.pop()
     # want = sign + body; got must be body or sign + body
